@@ -87,7 +87,7 @@ def check_pair(chk, g, meth, via, proj, cnt):
     inst = "%s::%s" % (g.ident, meth)
     try:
         got = run_with_opaque(g, key, opaque_keys=[vkey])
-    except (Unsupported, SymbolicLoop) as e:
+    except (Unsupported, SymbolicLoop, Diverged) as e:
         chk.ob("R1", inst, False, "projection not established: %s" % e, where=body["span"][0])
         return
 
@@ -96,7 +96,22 @@ def check_pair(chk, g, meth, via, proj, cnt):
         sty = ref_ty(ev, g.tyid)
         rs = [synth_call(ev, st, vkey, [selfref], [sty], rty) for _ in range(cnt)]
         return proj(rs)
-    compare(chk, inst, body, got, expected_state(g, build), cnt)
+    tr = Trial()
+    compare(tr, inst, body, got, expected_state(g, build), cnt)
+    if not tr.ok() and not got[0].calls:
+        # a body that produces the words itself instead of calling the other method: compare with that method evaluated in place
+        try:
+            got2 = run_with_opaque(g, key)
+            exp2 = expected_state(g, lambda ev, st, selfref, dest: proj([ev.call_body(st, vkey, [selfref]) for _ in range(cnt)]))
+            ok = same_value(got2[2], exp2[2]) and same_value(got2[1].objs[got2[3]], exp2[1].objs[exp2[3]]) and got2[1].world is exp2[1].world \
+                and not got2[0].calls and not exp2[0].calls
+        except (Unsupported, SymbolicLoop, Diverged):
+            ok = False
+        if ok:
+            chk.ob("R1", inst + "|hand-written (no call of %s): value and final state equal those of %d %s call(s) evaluated in place" % (via, cnt, via),
+                   True, "", where=body["span"][0], sample={"obligation": inst, "returned": show(got2[2])})
+            return
+    tr.replay(chk)
 
 
 def check_delegate(chk, g, meth, target_def, target_key_fn, extra=None):
